@@ -73,9 +73,8 @@ func (r *Rules) ValidPreparedProof(p Proof, height, beforeView uint64) bool {
 	if p.PP.Hash != p.P.Hash || p.PP.Inst != r.Inst || p.P.Inst != r.Inst {
 		return false
 	}
-	if p.PP.Type != int(protocol.LEAN_HELIX_PREPREPARE) || p.P.Type != int(protocol.LEAN_HELIX_PREPARE) {
-		return false
-	}
+	// (the message types inside the two refs are not constrained: C08 asks for valid signatures over one
+	// (instance, height, view, hash); a member's COMMIT signature for that tuple is at least as strong)
 	leader := r.Leader(p.PP.View)
 	if p.PPSender.ID != leader || !p.PPSender.SigOK {
 		return false
